@@ -203,7 +203,7 @@ def dist_fn(scn, model):
     return lambda a, b: float(fn(Z[a].copy(), Z[b].copy()))
 
 
-def run_scenario(scn):
+def _run_scenario(scn):
     """-> (record, None) | (None, why). record holds everything the property checks need (raw floats + trace)."""
     np = _np()
     H.import_opfython()
@@ -825,3 +825,13 @@ def knn_pre_scenario(rng, metric="euclidean", lattice=False):
     scn = {"kind": "knn", "mode": "pre", "metric": metric, "Z": Z.tolist(), "D": None, "I_train": I_train, "Y": [y[i] for i in I_train],
            "I_val": Iv, "Yv": yv, "min_k": 1, "max_k": mk, "Q": Q, "propagate": False, "pass_I": True, "single_predict": False}
     return scn if materialise(scn) else None
+
+
+def run_scenario(scn):
+    """_run_scenario under a time limit (see supcommon.run_scenario)."""
+    try:
+        with H.time_limit(int(scn.get("time_limit", 90))):
+            return _run_scenario(scn)
+    except H.CallTimeout as ex:
+        CTX["on"] = False
+        return None, ("exception", "CallTimeout: %s" % ex)
